@@ -4,7 +4,7 @@ correspondence: the Lean model (`Drivers/C17.lean`, complex doubles) and `prysm.
 (Fresnel coefficients at an interface; r, t of stacks of 1..8 layers, both polarisations, oblique incidence,
 lossless and absorbing layers), compared at 1e-9; the property's own predicates (energy conservation, one-layer
 stack = Fresnel, Brewster zero, zero-thickness identity, half-wave absentee, batched = loop, R+T <= 1 with
-absorption) are evaluated on the REAL outputs of every case as well.
+absorption, independence of call history / caller's arrays untouched) are evaluated on the REAL outputs of every case as well.
 """
 import math
 import numpy as np
@@ -132,7 +132,42 @@ def pred(item, c):
             rl, tl = tf.multilayer_stack_rt(sl, c['wavelength'], c['pol'], aoi=c['aoi'], ambient_index=c['ambient'])
             worst = max(worst, _rel(complex(r[idx]), complex(rl)), _rel(complex(t[idx]), complex(tl)))
         return worst <= TOL_BATCH, f'batched vs per-element loop: worst relative difference {worst!r}'
+    if item == 'history':
+        # the SAME caller-owned ndarray is evaluated repeatedly; results must not depend on earlier calls and the
+        # caller's data must be left untouched
+        n, d = np.array(c['n'], dtype=float), np.array(c['d'], dtype=float)
+        arr = np.stack([n, d], axis=1)
+        keep = arr.copy()
+        k, bs = arr.shape[0], arr.shape[2:]
+        calls = [(pol, w) for pol, w in zip(c['pols'], c['wavelengths'])]
+        for step, (pol, w) in enumerate(calls):
+            ref = tf.multilayer_stack_rt(keep.copy(), w, pol, aoi=c['aoi'], ambient_index=c['ambient'])
+            got = tf.multilayer_stack_rt(arr, w, pol, aoi=c['aoi'], ambient_index=c['ambient'])
+            e = max(_relarr(got[0], ref[0]), _relarr(got[1], ref[1]))
+            if e > TOL_BATCH:
+                return False, f'call {step + 1} ({pol}, wavelength {w}) on the same stack array differs from the call on a fresh copy by {e!r}'
+            if not np.array_equal(arr, keep):
+                return False, f'call {step + 1} ({pol}) modified the caller\'s stack array (max change {float(np.max(np.abs(arr - keep)))!r})'
+        if bs:
+            pol, w = calls[-1]
+            rb, tb = tf.multilayer_stack_rt(arr, w, pol, aoi=c['aoi'], ambient_index=c['ambient'])
+            for idx in np.ndindex(*bs):
+                view = arr[(slice(None), slice(None)) + idx]          # a (k, 2) view of the same array
+                rl, tl = tf.multilayer_stack_rt(view, w, pol, aoi=c['aoi'], ambient_index=c['ambient'])
+                e = max(_rel(complex(rb[idx]), complex(rl)), _rel(complex(tb[idx]), complex(tl)))
+                if e > TOL_BATCH:
+                    return False, f'batched call then per-element loop over the same array: element {idx} differs by {e!r}'
+            if not np.array_equal(arr, keep):
+                return False, 'the per-element loop over views modified the caller\'s stack array'
+        return True, f'{len(calls)} calls on one stack array of shape {arr.shape}: independent of history, array unchanged'
     raise KeyError(item)
+
+
+def _relarr(a, b):
+    a, b = np.asarray(a), np.asarray(b)
+    if a.shape != b.shape:
+        return float('inf')
+    return float(np.max(np.abs(a - b) / np.maximum(1.0, np.abs(b)))) if a.size else 0.0
 
 
 def _check(ctx, item, case, nontrivial=True, tag=None):
@@ -295,6 +330,21 @@ def correspondence(ctx):
                 'aoi': aoi, 'ambient': amb}
         _check(ctx, 'batch', case, tag=f'shape{bs}/k{k}/{"normal" if aoi == 0 else "oblique"}')
 
+    # ------------------------------------------------ histories: one caller-owned ndarray, many evaluations
+    hshapes = [(), (4,), (2, 3)]
+    for i in range(ctx.scale(60, 1200) * widen):
+        bs = hshapes[i % len(hshapes)]
+        k = 1 + (i // len(hshapes)) % 6
+        amb = float(rng.choice([1.0, round(rng.uniform(1, 2), 3)]))
+        n = np.round(rng.uniform(1.0, 4.0, size=(k,) + bs), 3)
+        d = np.round(rng.uniform(0.05, 1.2, size=(k,) + bs), 4)
+        smax = min(0.97 * n.min() / amb, math.sin(math.radians(89)))
+        aoi = float(rng.choice([0.0, round(rng.uniform(0, math.degrees(math.asin(smax))), 2)]))
+        w1, w2 = round(float(rng.uniform(0.4, 2)), 3), round(float(rng.uniform(0.4, 2)), 3)
+        seq = [(['s', 'p', 's'], [w1, w1, w1]), (['p', 's', 'p', 'p'], [w1, w2, w1, w2]), (['s', 's'], [w1, w2])][i % 3]
+        case = {'n': n.tolist(), 'd': d.tolist(), 'pols': seq[0], 'wavelengths': seq[1], 'aoi': aoi, 'ambient': amb}
+        _check(ctx, 'history', case, tag=f'shape{bs}/k{k}/{"".join(seq[0])}')
+
 
 # ------------------------------------------------------------------------------------------------
 # search: smallest failing input of the property's predicates on the real code
@@ -329,6 +379,10 @@ def _small_scope():
         for aoi in (0.0, 35.0):
             for pol in 'sp':
                 yield 'absorbing', {'stack': st, 'wavelength': 0.55, 'pol': pol, 'aoi': aoi, 'ambient': 1.0}
+    for (nn, dd) in (([1.38, 1.5], [0.1, 1.0]), ([[1.38, 1.6], [1.5, 1.5]], [[0.1, 0.2], [1.0, 1.0]])):
+        for aoi in (0.0, 30.0):
+            yield 'history', {'n': nn, 'd': dd, 'pols': ['s', 'p', 's'], 'wavelengths': [0.5, 0.5, 0.5], 'aoi': aoi, 'ambient': 1.0}
+            yield 'history', {'n': nn, 'd': dd, 'pols': ['s', 's'], 'wavelengths': [0.5, 0.8], 'aoi': aoi, 'ambient': 1.0}
     for bs in ((2,), (2, 2)):
         for k in (1, 2, 3):
             n = (1.2 + 0.3 * np.arange(k * int(np.prod(bs)))).reshape((k,) + bs)
@@ -416,7 +470,8 @@ MANIFEST_ENTRY = {
              'stretch): with the complex sin/cos themselves, d/dk Re(E conj H) = Im(a)|H|^2 + Im(b)|E|^2 >= 0 inside a layer, so every '
              'layer with Im n^2 >= 0, thickness >= 0 and cos(theta) from Snell\'s law is passive, passive matrices are closed under '
              'products (any depth), and between real media |r|^2 + (n_e cos th_e/n_0 cos th_0)|t|^2 <= 1, both polarisations. '
-             'CORRESPONDENCE ONLY: batched (1-D/N-D) = per-element loop.'),
+             'CORRESPONDENCE ONLY: batched (1-D/N-D) = per-element loop; independence of call history (the same caller-owned ndarray '
+             'evaluated repeatedly - s/p/s, two wavelengths, batched then element views - equals calls on fresh copies and is left unchanged).'),
     'note': ('Trusted: Lean kernel + standard axioms; the ast->Lean translator for the arithmetic subset; NumPy matmul / '
              'broadcasting / complex arcsin, sin, cos; IEEE rounding (no theorem speaks about it). cos/sin of the angles and of beta, '
              'and -i, are abstract parameters with the laws c^2 + s^2 = 1, mI^2 = -1; non-vacuity examples instantiate them.'),
